@@ -98,14 +98,17 @@ class RealAPI:
             from pydiverse.transform._internal.tree import types as _types
 
             static = {c.name: _types.without_const(c.dtype()) for c in tbl}
-            names = list(new._ast.df.collect_schema().names())
+            leaf = new._ast
+            while hasattr(leaf, "child"):
+                leaf = leaf.child  # collect() may wrap the new source in a group_by node
+            names = list(leaf.df.collect_schema().names())
             schema = {n: static[n].to_polars() for n in names}
             tagged = pl.DataFrame({c: [None] * (20 + len(COLLECTED)) for c in names}, schema=schema)
-            new._ast.df = tagged.lazy()
+            leaf.df = tagged.lazy()
             for n in names:
-                new._ast.cols[n]._dtype = static[n]
-                if new._ast.cols[n]._uuid in new._cache.cols:
-                    new._cache.cols[new._ast.cols[n]._uuid]._dtype = static[n]
+                leaf.cols[n]._dtype = static[n]
+                if leaf.cols[n]._uuid in new._cache.cols:
+                    new._cache.cols[leaf.cols[n]._uuid]._dtype = static[n]
             COLLECTED.append((scan_key(tagged), stage, names))
         return new
 
